@@ -114,7 +114,7 @@ func c20Exec(x *Ctx) {
 			}
 			var es []*c20Entry
 			for k := 0; k < mine; k++ {
-				e := &c20Entry{id: nextID, owner: r.Intn(3), typ: r.Pick(1, 2, 4), producer: pi, seq: len(es)}
+				e := &c20Entry{id: nextID, owner: r.Intn(3), typ: r.Pick(1, 2, 4, 3, 6, 5), producer: pi, seq: len(es)} // types that share bits are different types
 				nextID++
 				es = append(es, e)
 				byID[e.id] = e
@@ -140,7 +140,7 @@ func c20Exec(x *Ctx) {
 					for y := fr.Intn(6); y > 0; y-- {
 						rt.Yield(rt.SiteActor)
 					}
-					doFilter(fr.Pick(-1, -1, 0, 1, 2), fr.Pick(0, 0, 1, 2, 4))
+					doFilter(fr.Pick(-1, -1, 0, 1, 2), fr.Pick(0, 0, 1, 2, 4, 3, 6))
 				}
 			}))
 		}
@@ -156,7 +156,7 @@ func c20Exec(x *Ctx) {
 		// logging has stopped and the system is quiescent: Filter must now be exact
 		filters := [][2]int{{-1, 0}}
 		for k := int(c.cfg("nfilters")); k > 0; k-- {
-			filters = append(filters, [2]int{r.Pick(-1, 0, 1, 2), r.Pick(0, 1, 2, 4)})
+			filters = append(filters, [2]int{r.Pick(-1, 0, 1, 2), r.Pick(0, 1, 2, 4, 3, 6)})
 		}
 		var exact []*c20Result
 		g := rt.Go(rt.SiteSpawn, func() {
